@@ -27,7 +27,7 @@ if not diff.strip():
 open(os.path.join(out, "patch.diff"), "w").write(diff)
 rc, untracked = sh("git ls-files --others --exclude-standard", cwd=wt)
 rc, modtests = sh("git diff HEAD --name-only -- '*_test.go'", cwd=wt)
-demos = [f for f in untracked.split() if f.endswith("_test.go") or f.endswith(".go")] 
+demos = [f for f in untracked.split() if f.endswith("_test.go") or f.endswith(".go") or os.path.basename(f) in ("go.mod", "go.sum")]
 if modtests.strip():
     print("WARNING: existing test files were modified:", modtests)
 demo_dir = os.path.join(out, "demo"); os.makedirs(demo_dir, exist_ok=True)
@@ -46,6 +46,8 @@ def demo_cmds(d):
         if not f.endswith("_test.go"): continue
         pkgdir = os.path.dirname(f) or "."
         mod = "filters/encrypt" if f.startswith("filters/encrypt") else "."
+        if os.path.join(pkgdir, "go.mod") in demos:
+            mod = pkgdir  # the demonstration is a nested module of its own (it needs both repo modules)
         rel = os.path.relpath(pkgdir, mod)
         names = re.findall(r"^func (Test\w+)\(", open(os.path.join(wt, f)).read(), re.M)
         race = "-race " if "race" in open(os.path.join(wt, f)).read().lower() or os.path.exists(os.path.join(wt,"SEED.md")) and "-race" in open(os.path.join(wt,"SEED.md")).read() else ""
